@@ -286,9 +286,13 @@ let run_case_inner (a : string array) : string =
     load_table ();
     let data (n : z list) : z list option =
       let s = String.concat "" (List.map (fun c -> String.make 1 (Char.chr ((int_of_z c) land 255))) n) in
-      if String.length s > 2 && String.sub s 0 2 = "V:" then
-        (match Hashtbl.find_opt table (String.sub s 2 (String.length s - 2)) with Some e -> Some e.bytes | None -> None)
-      else None in
+      if String.length s > 2 && String.sub s 0 2 = "V:" then begin
+        (* "V:<id>#key" and "V:<id>%00rest" (a NUL inside the name) are other names for the same bytes *)
+        let id = String.sub s 2 (String.length s - 2) in
+        let cut c id = match String.index_opt id c with Some i -> String.sub id 0 i | None -> id in
+        let id = cut '%' (cut '#' id) in
+        (match Hashtbl.find_opt table id with Some e -> Some e.bytes | None -> None)
+      end else None in
     let bytes_of s = List.init (String.length s) (fun i -> z_of_int (Char.code s.[i])) in
     let str_of n = String.concat "" (List.map (fun c -> String.make 1 (Char.chr ((int_of_z c) land 255))) n) in
     let evs = List.filter_map (fun tok ->
